@@ -336,6 +336,8 @@ pub struct Shared {
     /// the wire has handed a FIN to this side
     pub fin_delivered: [std::cell::Cell<bool>; 2],
     pub round: std::cell::Cell<u32>,
+    /// tasks the scenario currently keeps asleep (late readers): scenario-imposed waiting, not a stall
+    pub sleepers: std::cell::Cell<u32>,
     /// round in which the exhaustion plan started to lose packets
     pub hole_round: std::cell::Cell<Option<u32>>,
     pub spawner: Spawner,
@@ -350,6 +352,7 @@ pub(super) const SIDE_NAME: [&str; 2] = ["client", "server"];
 
 impl Shared {
     async fn sleep_rounds(&self, k: u32) {
+        self.sleepers.set(self.sleepers.get() + 1);
         if self.hosts.is_some() {
             for _ in 0..k {
                 next_round().await
@@ -357,6 +360,7 @@ impl Shared {
         } else {
             tokio::time::sleep(std::time::Duration::from_millis(k as u64)).await
         }
+        self.sleepers.set(self.sleepers.get() - 1);
     }
 
     /// The reader of `side` is about to issue its first read: which rare situations is it in?
@@ -842,6 +846,7 @@ pub fn run_conn(sc: &Scenario, keep: bool) -> Outcome {
         writer_done: [Gate::default(), Gate::default()],
         fin_delivered: Default::default(),
         round: Default::default(),
+        sleepers: Default::default(),
         hole_round: Default::default(),
         spawner: ex.spawner.clone(),
         hosts: Some([ch, shost]),
@@ -1105,8 +1110,7 @@ fn drive(sc: &Scenario, mode: Mode, guard: &EnterGuard, ex: &mut Executor, sh: &
     loop {
         st.rounds = round;
         sh.round.set(round);
-        // a reader the scenario keeps asleep is scenario-imposed waiting, not a stall
-        let mut active = round <= sc.sides[0].read_delay.max(sc.sides[1].read_delay) + 2;
+        let mut active = false;
 
         // A. applications
         let force = sc.spurious > 0 && round % sc.spurious as u32 == sc.spurious as u32 - 1;
@@ -1211,6 +1215,9 @@ fn drive(sc: &Scenario, mode: Mode, guard: &EnterGuard, ex: &mut Executor, sh: &
         st.monitor_netstat(sc, &mut sh.obs.borrow_mut(), "after delivery");
 
         // D. verdict bookkeeping
+        if sh.sleepers.get() > 0 {
+            active = true;
+        }
         {
             let o = sh.obs.borrow();
             if o.progress != last_progress {
